@@ -529,6 +529,17 @@ def _i1(h, g):
     return Outcome("return", _Plain(sorted(set(bad))))
 
 
+def scribble(out):
+    """The caller does what it likes with a collection it was handed: after an observation has been read, the returned list / set is
+    reversed and emptied in place.  Results are snapshots (C12), so nothing the library answers later may depend on it."""
+    v = out.value if out.kind == "return" else None
+    if isinstance(v, Seq) and v.kind == "list" and not v.has_seg() and getattr(v, "ucls", None) is None:
+        v.items.reverse()
+        del v.items[len(v.items) // 2:]
+    elif isinstance(v, SetV) and not v.frozen and not v.opaque:
+        del v.items[:]
+
+
 class _Plain:
     """an already-projected observation"""
 
@@ -784,11 +795,14 @@ def run_one(h, res, prop, rule, fam, sch, extra_observers, mut_kinds, quick_subs
         for idx, o in enumerate(todo):
             out = o.do(g)
             if not check or prop not in o.props:
+                scribble(out)
                 continue
             want = o.want(g.m)
             if want is DC:
+                scribble(out)
                 continue
             got = out.value.v if out.kind == "return" and isinstance(out.value, _Plain) else osig(out)
+            scribble(out)
             ok = o.cmp(got, want) if o.cmp else got == want
             n += 1
             fam_, sch_, mu = ctxinfo
@@ -913,7 +927,7 @@ def describe(fam, sch, mu):
          "unpickled-on": "graph copied through the pickle protocol into fresh class-level state, caching on",
          "unpickled-warm-on": "graph built and queried with caching on (warm memos), copied through the pickle protocol into fresh class-level state, caching on",
          "unpickled-off": "graph built with caching on and copied through the pickle protocol into fresh class-level state, caching off"}[sch]
-    return f"{fam} graph; {s}; every accessor and query once; {mu.label if mu else '(no mutation)'}; query"
+    return f"{fam} graph; {s}; every accessor and query once (the caller reverses and truncates every list it is handed); {mu.label if mu else '(no mutation)'}; query"
 
 
 def replay(fam, sch, mu, o):
